@@ -587,6 +587,7 @@ func runCheck(sp *spec, tier string) int {
 	}
 	os.MkdirAll(filepath.Join(verifDir, "replays"), 0755)
 	seenMin := map[string]bool{}
+	var unreplayed []string
 	for _, fp := range order {
 		v := groups[fp]
 		v.Tier = tier
@@ -595,9 +596,19 @@ func runCheck(sp *spec, tier string) int {
 			infra("minimising %q: %v", fp, err)
 		}
 		if min.Class == "unreproducible" {
-			infra("violation %q (seed %d, run %d) did not replay: %s", fp, v.Seed, v.Index, min.Msg)
+			// The run failed inside a worker that had executed other runs before it,
+			// but not when replayed on its own: either state leaks from one run to
+			// the next inside the code under test, or the harness is not
+			// deterministic. Never reported as a violation of its own.
+			unreplayed = append(unreplayed, fmt.Sprintf("%q (seed %d, run %d): %s", fp, v.Seed, v.Index, min.Msg))
+			continue
 		}
 		min.Tier = tier
+		if min.Class == "harness" {
+			// the harness could not set up or observe the run: trouble, not a verdict
+			unreplayed = append(unreplayed, "harness trouble: "+min.Msg)
+			continue
+		}
 		if seenMin[min.Fingerprint] {
 			continue
 		}
@@ -614,6 +625,12 @@ func runCheck(sp *spec, tier string) int {
 			min.Class, min.Fingerprint, min.Seed, min.Index, len(min.Plan), len(min.Sched), min.OrigPlanLen, min.OrigSchedLen, min.ShrinkRuns, indent(min.Msg))
 		reported = append(reported, min.Fingerprint)
 		exit = 1
+	}
+	for _, u := range unreplayed {
+		fmt.Printf("NOT-REPLAYED %s\n", u)
+	}
+	if len(unreplayed) > 0 && exit == 0 && len(knownHit) == 0 {
+		infra("%d failing runs did not reproduce when replayed alone and no replayable violation was found", len(unreplayed))
 	}
 	writeEvidence(sp, tier, seed, t, sc, start, buildS, exploreS, detN, knownHit, reported)
 	fmt.Printf("%s %s: %d runs (%d distinct non-trivial), %d steps, %d inconclusive, %d violating runs in %d groups, %.0fs\n",
